@@ -21,6 +21,7 @@ def misc_cases(rng, n):
             {"fn": "reject_misc", "kind": "unknown_strategy", "name": rng.choice(["nearest", "Closest", "", "lowest"])},
             {"fn": "reject_misc", "kind": "unknown_rule", "name": rng.choice(["simpson", "Trapezoid", "rect", ""])},
             {"fn": "reject_misc", "kind": "unknown_method", "name": rng.choice(["quadratic", "Linear", "nearest", ""])},
+            {"fn": "reject_misc", "kind": "no_sampler", "m": rng.randint(3, 9)},
         ]))
     return out
 
